@@ -48,6 +48,8 @@ def enc_packet(p, serial):
     t = p["t"]
     if t == "CONNACK":
         props = [0x21, p["rm"] >> 8, p["rm"] & 255] if p.get("rm", 0) > 0 else []
+        if p.get("bad"):
+            props = [0x21, 0, 0]          # Receive Maximum 0: a protocol error the client must refuse
         return frame(0x20, [1 if p["sp"] else 0, p["rc"]] + varint(len(props)) + props)
     if t in ("PUBACK", "PUBREC", "PUBREL", "PUBCOMP"):
         first = {"PUBACK": 0x40, "PUBREC": 0x50, "PUBREL": 0x62, "PUBCOMP": 0x70}[t]
@@ -209,8 +211,8 @@ def compare(hist, lines):
                 if (r["k"], r["v"]) != (last["k"], last["v"]):
                     out.append("line %d: result %s:%s, specification %s:%s" % (ln, r["k"], r["v"], last["k"], last["v"]))
         for k in want:
-            if k in ("quota", "maxq") and want["gen"] == 0:
-                continue        # before the first CONNACK the code holds u16::MAX, the model Cap
+            if k in ("quota", "maxq") and (want["gen"] == 0 or not want["sp"]):
+                continue        # until a CONNACK has been activated the code holds u16::MAX, the model Cap
             if want[k] != got[k]:
                 out.append("line %d (%s): %s = %s, specification %s" % (ln, a, k, got[k], want[k]))
         if out:
